@@ -9,11 +9,15 @@
      burg_den_invariant  the recursively updated denominator equals the summed forward+backward
                          error energy entering the stage (non-degenerate stages)
      burg_k_optimal      E_m(q) - E_m(k_m) = den_m * |q - k_m|^2 for every q: k_m minimises the stage energy
-   NOT PROVED: |k_i| <= 1 and "rho does not increase" are order statements in R (they follow from
-   burg_k_optimal with q = 0 and den_m >= 0; stated in DESIGN.md), stability: search only. *)
+   PROVED (abstract ORDERED *-field, Theory/Order.v; Gaussian rationals and C are models):
+     burg_k_le_1         |k_m|^2 <= 1 at every non-degenerate stage (Cauchy-Schwarz)
+     burg_rho_monotone   rho >= 0 and rho_{m+1} <= rho_m
+     burg_rho_nonneg     rho_m >= 0 at every order
+   NOT PROVED: stability of the step-up polynomial (root location needs an algebraically closed
+   field): search only.  Strict |k| < 1 is not claimed by the property (modulus <= 1). *)
 Require Import Spectrum.Theory.Ops Spectrum.Theory.Sum Spectrum.Theory.Vec Spectrum.Model.Levinson Spectrum.Model.Burg
                Spectrum.Proofs.LevinsonTheory Spectrum.Proofs.BurgStage Spectrum.Proofs.BurgTheory Spectrum.Proofs.BurgDen
-               Spectrum.Instances.QcC.
+               Spectrum.Theory.Order Spectrum.Proofs.BurgOrder Spectrum.Instances.QcC Spectrum.Instances.QcCOrd.
 From Coq Require Import QArith Qcanon.
 
 Section C13.
@@ -53,13 +57,42 @@ Theorem burg_k_optimal (x : list F) m st q :
 Proof. exact (burg_k_optimal_thm x m st q). Qed.
 End C13.
 
+Section C13_order.
+Context {F : Type} {OF : Ops F} {L : Laws OF} {OL : OrdLaws OF}.
+Local Open Scope F_scope.
+
+Theorem burg_k_le_1 (x : list F) m st :
+  (m < length x)%nat -> burg_nondegenerate x (S m) -> burg_iter no_stop x m = BCont st ->
+  le (nrm2 (burg_kp (length x) st m)) 1.
+Proof. exact (burg_k_le_1_thm x m st). Qed.
+
+Theorem burg_rho_monotone (x : list F) m st st' :
+  (S m < length x)%nat -> burg_nondegenerate x (S m) ->
+  burg_iter no_stop x m = BCont st -> burg_iter no_stop x (S m) = BCont st' ->
+  nonneg (b_rho st) -> nonneg (b_rho st') /\ le (b_rho st') (b_rho st).
+Proof. exact (burg_rho_monotone_thm x m st st'). Qed.
+
+Theorem burg_rho_nonneg (x : list F) m st :
+  (m < length x)%nat -> burg_nondegenerate x m -> burg_iter no_stop x m = BCont st -> nonneg (b_rho st).
+Proof. exact (burg_rho_nonneg_thm x m st). Qed.
+End C13_order.
+
 (* non-vacuity: a concrete complex sequence runs through three non-degenerate stages *)
 Definition ex_x : list QcC := [cz (1,0) (0,0); cz (1,1) (1,0); cz (-1,0) (1,-1); cz (3,-1) (0,0); cz (1,0) (-1,0); cz (-1,-1) (1,-2)]%Z.
 Example arburg_example : exists a rho ref, @arburg _ qcc_ops ex_x 3 no_stop = Some (a, rho, ref).
 Proof. vm_compute. do 3 eexists. reflexivity. Qed.
+
+Example burg_nondegenerate_example : @burg_nondegenerate _ qcc_ops ex_x 3.
+Proof.
+  intros q st Hq H. destruct q as [|[|[|q]]]; try lia; vm_compute in H; injection H as <-;
+  vm_compute; intro E; inversion E.
+Qed.
 
 Print Assumptions arburg_shape.
 Print Assumptions arburg_nested.
 Print Assumptions arburg_criteria.
 Print Assumptions burg_den_invariant.
 Print Assumptions burg_k_optimal.
+Print Assumptions burg_k_le_1.
+Print Assumptions burg_rho_monotone.
+Print Assumptions burg_rho_nonneg.
